@@ -25,9 +25,10 @@ ASSUMPTIONS = [
 ]
 
 # wait kinds
-DELAY, MOMENT, AFTER, BEFORE, INSTANT, ETERNITY, INF_AFTER, UNTIL_MOMENT, UNTIL_AFTER = range(9)
+DELAY, MOMENT, AFTER, BEFORE, INSTANT, ETERNITY, INF_AFTER, UNTIL_MOMENT, UNTIL_AFTER, \
+    INF_DELAY = range(10)
 KIND_NAMES = ['time+d', 'time==t', 'time>=t', 'time<t', 'instant', 'eternity', 'time>=inf',
-              'until(time==t)', 'until(time>=t)']
+              'until(time==t)', 'until(time>=t)', 'time+inf']
 NEVER = 'never'
 
 
@@ -44,7 +45,7 @@ def expected(kind, arg, now0):
         return now0 if now0 < arg else NEVER
     if kind == INSTANT:
         return now0
-    if kind == INF_AFTER:
+    if kind in (INF_AFTER, INF_DELAY):
         return INF      # documented: a float clock may reach inf (but never `eternity`)
     if kind == ETERNITY:
         return NEVER
@@ -66,6 +67,8 @@ async def do_wait(kind, arg):
         await eternity
     elif kind == INF_AFTER:
         await (time >= INF)
+    elif kind == INF_DELAY:
+        await (time + INF)
     else:
         raise AssertionError(kind)
 
@@ -192,7 +195,8 @@ def fam_do(E, k, real=False):
                     scope.do(child(i, 1))
         log('root', 'exit')
 
-    out = simulate(root(), start=start, log=log)
+    ieee = real == 'float'
+    out = simulate(root(), start=start, log=log, probe=Probe(check_clock=not ieee))
     bad = classify_run_exception(out.exc, allowed=())
     E.prove(bad is None, 'run-ends-normally', bad)
     if out.exc is not None:
@@ -208,10 +212,12 @@ def fam_do(E, k, real=False):
         exp = t0 + arg if mode == 0 else (arg if mode == 1 else t0)
         E.prove(EQ(f[2], exp), 'child-starts-at-exact-date',
                 ('child %d spawned at %r mode %d arg %r started at %r', i, t0, mode, arg, f[2]))
+        if ieee:
+            continue            # IEEE mode: only the exact start date (cheap for the solver)
         E.prove(EQ(s[2], exp + 1), 'child-second-step-exact')
         latest = exp + 1 if latest is None else MAX(latest, exp + 1)
     ex = log.first('root', 'exit')
-    E.prove(ex is not None and EQ(ex[2], latest), 'scope-exits-with-last-child')
+    E.prove(ex is not None and (ieee or EQ(ex[2], latest)), 'scope-exits-with-last-child')
 
 
 def fam_many(E, k, real=False, waitqueue=None):
@@ -251,7 +257,7 @@ def fam_many(E, k, real=False, waitqueue=None):
 
 
 K7 = [DELAY, MOMENT, AFTER, BEFORE, INSTANT, ETERNITY, UNTIL_AFTER]
-K9 = list(range(9))
+K9 = list(range(10))
 K5 = [DELAY, MOMENT, AFTER, BEFORE, UNTIL_MOMENT]
 K4 = [DELAY, MOMENT, AFTER, UNTIL_MOMENT]
 
@@ -297,6 +303,10 @@ FAMILIES = [
            quick=dict(k=2),
            thorough=dict(k=3),
            bounds='scope.do(after=/at=/plain) for 2 (thorough 3) children spawned at symbolic dates'),
+    Family('do_float', fam_do,
+           quick=dict(k=1, real='float'),
+           thorough=dict(k=2, real='float', _max_wall=1200),
+           bounds='IEEE double dates: scope.do(after=/at=) children must start exactly at the date'),
     Family('do2real', fam_do,
            thorough=dict(k=2, real=True),
            bounds='as do2 with exact rational dates'),
